@@ -135,7 +135,7 @@ def family_multirec(tier, start=0):
 
 # ------------------------------------------------------------------ strat
 
-def family_strat(tier, start=0):
+def family_strat(tier, start=0, subset=None):
     """Chains of 3 (thorough: 4) unary strata s1..sk over a/1, e/2; each stratum picks one template over the
     earlier strata: negation, conjunction, count aggregate, recursive with negated lower stratum.
     Only the LAST stratum and s1 are outputs in half of the cases (so intermediate relations are expirable)."""
@@ -182,7 +182,10 @@ def family_strat(tier, start=0):
                 cid += 1
             return
         for tag, rules in templates(i, names0):
-            if tier == "quick" and tag not in quick_subset:
+            if subset is not None:
+                if tag not in subset:
+                    continue
+            elif tier == "quick" and tag not in quick_subset:
                 continue
             rec(i + 1, rules_so_far + rules, tags + [tag])
 
@@ -196,7 +199,7 @@ BIN_OPS_INT = ["+", "-", "*", "/", "%", "^", "band", "bor", "bxor", "bshl", "bsh
 UN_OPS_INT = ["neg", "bnot", "lnot"]
 
 
-def family_arith(tier, start=0):
+def family_arith(tier, start=0, part="safe"):
     """Functor expressions in every syntactic position of a rule: head argument, body-atom argument, constraint
     operand, negated-atom argument, aggregate target; every integer operator; thorough: nested depth 2 and
     unsigned/float columns.  Inputs n(x) over small numbers."""
@@ -240,7 +243,15 @@ def family_arith(tier, start=0):
             cases.append(Case(cid, "arith", P, pname + ": " + show(P.rules[-1])))
             cid += 1
     dbs = [{"n": tuple((v,) for v in vs)} for vs in ([], [0], [1, 2], [0, 1, 2, 3], [-2, -1, 0, 1, 5], [3, 4, 7, 31, 32])]
-    return _finish(cases), dbs
+    risky_dbs = [{"n": tuple((v,) for v in vs)} for vs in ([], [1], [1, 2], [1, 2, 3, 5], [2, 3, 7])]
+    cases = _finish(cases)
+    risky = [c for c in cases if any(op in c.desc for op in (" / ", " % ", " ^ "))]
+    safe = [c for c in cases if c not in risky]
+    if part == "safe":
+        return safe, dbs
+    if part == "risky":
+        return risky, risky_dbs
+    return safe, dbs
 
 
 # ------------------------------------------------------------------ agg
